@@ -113,4 +113,40 @@ run C17-r3m1 C17 C09
 run C17-r3m2 C17
 run C18-r3m1 C18 C01
 run C18-r3m2 C18 C01
+# round 4: written against the call-graph obligation too (logic-only changes)
+run C01-r4m1 C01 C08
+run C01-r4m2 C01 C09
+run C02-r4m1 C02 C04
+run C02-r4m2 C02 C13
+run C03-r4m1 C03
+run C03-r4m2 C03 C08
+run C04-r4m1 C04 C08
+run C04-r4m2 C04 C06
+run C05-r4m1 C05 C08
+run C05-r4m2 C05 C04
+run C06-r4m1 C06
+run C06-r4m2 C06 C01
+run C07-r4m1 C07
+run C07-r4m2 C07 C10
+run C08-r4m1 C08
+run C08-r4m2 C08
+run C09-r4m2 C09
+run C10-r4m1 C10 C07
+run C10-r4m2 C10 C01
+run C11-r4m1 C11
+run C11-r4m2 C11
+run C12-r4m1 C12
+run C12-r4m2 C12
+run C13-r4m1 C13
+run C13-r4m2 C13 C06
+run C14-r4m1 C14
+run C14-r4m2 C14
+run C15-r4m1 C15
+run C15-r4m2 C15 C02
+run C16-r4m1 C16 C04
+run C16-r4m2 C16 C04
+run C17-r4m1 C17
+run C17-r4m2 C17
+run C18-r4m1 C18 C06 C01
+run C18-r4m2 C18 C06 C01
 python3 tools/seeded_summary.py
